@@ -28,6 +28,9 @@ import (
 	"olverif/internal/world"
 )
 
+// extraSigner signs the surplus signature entries (set from the world of the first warm chain).
+var extraSigner *world.Account
+
 type encoding struct {
 	name  string
 	bytes []byte
@@ -69,6 +72,23 @@ func reencodings(tx []byte) []encoding {
 		out = append(out, encoding{"wrong-type-memo-number", bytes.Replace(tx, append([]byte(`"memo":`), m["memo"]...), []byte(`"memo":5`), 1)})
 		out = append(out, encoding{"wrong-type-memo-object", bytes.Replace(tx, append([]byte(`"memo":`), m["memo"]...), []byte(`"memo":{"a":1}`), 1)})
 		out = append(out, encoding{"wrong-type-extra-signature", bytes.Replace(tx, []byte(`"signatures":[`), []byte(`"signatures":[7,`), 1)})
+		// one more well-formed signature entry appended (a copy of the first; and somebody else's valid
+		// signature over the same content): canonical bytes, a new hash, the original signatures untouched
+		st := &action.SignedTx{}
+		if json.Unmarshal(tx, st) == nil && len(st.Signatures) > 0 && st.Type != action.OLVM {
+			cp := *st
+			cp.Signatures = append(append([]action.Signature{}, st.Signatures...), st.Signatures[0])
+			out = append(out, encoding{"surplus-signature-copy", cp.SignedBytes()})
+			if extraSigner != nil {
+				if h, err := extraSigner.Priv.GetHandler(); err == nil {
+					if sig, err := h.Sign(st.RawTx.RawBytes()); err == nil {
+						cp2 := *st
+						cp2.Signatures = append(append([]action.Signature{}, st.Signatures...), action.Signature{Signer: extraSigner.Pub, Signed: sig})
+						out = append(out, encoding{"surplus-signature-of-a-stranger", cp2.SignedBytes()})
+					}
+				}
+			}
+		}
 	}
 	return out
 }
@@ -141,7 +161,8 @@ func sameSignedContent(a, b []byte) bool {
 	if err := serialize.GetSerializer(serialize.NETWORK).Deserialize(b, sb); err != nil && len(sb.Signatures) == 0 {
 		return false
 	}
-	if !bytes.Equal(sa.RawTx.RawBytes(), sb.RawTx.RawBytes()) || len(sa.Signatures) != len(sb.Signatures) {
+	// (surplus signature entries after the original ones leave the signed content and its signatures intact)
+	if !bytes.Equal(sa.RawTx.RawBytes(), sb.RawTx.RawBytes()) || len(sa.Signatures) > len(sb.Signatures) {
 		return false
 	}
 	for i := range sa.Signatures {
@@ -299,6 +320,9 @@ func checkC05(tier string) int {
 	var jmu sync.Mutex
 	for _, wm := range warms {
 		wm := wm
+		if extraSigner == nil {
+			extraSigner = wm.w.Users[4%len(wm.w.Users)]
+		}
 		bases := wm.freshBases(2)
 		// a transfer whose memo is empty (the zero value: what a decoder leaves behind for a field it rejects)
 		{
@@ -336,6 +360,13 @@ func checkC05(tier string) int {
 					gap     int
 					restart bool
 				}{3, true})
+			}
+			if bi%3 == 1 || tier == "thorough" {
+				// restarted node, resubmission before the first block after the restart
+				variants = append(variants, struct {
+					gap     int
+					restart bool
+				}{0, true})
 			}
 			if between[bi] != nil {
 				variants = []struct {
